@@ -322,8 +322,9 @@ impl<K: KeyT, V: ValT> MapWorld<K, V> {
         let k2: Vec<u32> = if keys2.is_empty() { vec![0] } else { keys2.iter().map(|k| k.serial()).collect() };
         let own_key = if api == 5 { Some(K::make(kid)) } else { None };
         let ks = own_key.as_ref().map_or(0, |k| k.serial());
-        let view = K::view(kid);
-        let hash = self.slots[si].plan.hash(kid);
+        let view_h = K::view(kid);
+        let view: &K::View = &*view_h;
+        let hash = self.slots[si].plan.hash(K::plan_id(kid));
         let plan = self.slots[si].plan.clone();
         let mut fc = self.fctx(si, op);
         fc.toggles = true;
@@ -347,7 +348,7 @@ impl<K: KeyT, V: ValT> MapWorld<K, V> {
         let mut ret_k: Vec<K> = Vec::new();
         let mut ret_v: Vec<V> = Vec::new();
         let (spv, spk, rk, rv) = (&mut spare_v, &mut spare_k, &mut ret_k, &mut ret_v);
-        let viewr = &view;
+        let viewr = view;
         let out = self.ctx.call(op, move || {
             let mut vals = vals.into_iter();
             let mut keys2 = keys2.into_iter();
@@ -632,7 +633,7 @@ impl<K: KeyT, V: ValT> MapWorld<K, V> {
                                     24 => v.insert_hashed_nocheck(hash, key, val),
                                     _ => v.insert_with_hasher(hash, key, val, |k| {
                                         tick(Class::Hash);
-                                        plan.hash(k.id())
+                                        plan.hash(K::plan_id(k.id()))
                                     }),
                                 };
                                 log.push(Ev::Key(k.id(), k.serial()));
